@@ -314,7 +314,6 @@ func Trunc(a *Term, to int) *Term {
 	return &Term{Kind: SBV, W: to, S: fmt.Sprintf("((_ extract %d 0) %s)", to-1, a)}
 }
 
-
 func FPNeg(a *Term) *Term {
 	if a.Const {
 		return FPc(-a.F)
